@@ -176,9 +176,9 @@ theorem TCInv_exitBody {inj : BSt → Nat → BSt} (hi : InjOK TCInv inj) (tick 
     TCInv (exitBody inj tick s) := by
   unfold exitBody
   simp only []
-  have h2 := populate_ok TCInv_closed hi _ (TCInv_closed.clock _ ((allEmpty s).1.now + tick) (TCInv_closed.allEmpty s hs))
+  have h2 := populate_ok TCInv_closed.toClosedB hi _ (TCInv_closed.clock _ ((allEmpty s).1.now + tick) (TCInv_closed.allEmpty s hs))
   split
-  · exact batchLoop_ok TCInv_closed hi _ _ h2
+  · exact batchLoop_ok TCInv_closed.toClosedB hi _ _ h2
   · exact h2
 
 theorem exitFinal_drained (s : BSt) (hs : TCInv s) (he : (allEmpty s).2 = true) :
